@@ -5,7 +5,7 @@ STUB = {'get_possible_cpus_array_len': 'my_ncpus'}
 EX = {'stub_map': STUB, 'extra_srcs': ['src/rculfhash-mm-order.c'], 'intaddr_ok': True, 'mem_gb': 16}
 
 
-def lf(name, scen, threads, R, cf=(), desc='', wit=None, tso=0, unwind=5):
+def lf(name, scen, threads, R, cf=(), desc='', wit=None, tso=0, unwind=3):
     return conc(name, 'c05_lfht_conc.c', threads, R, cflags=['-DSCEN=%d' % scen] + list(cf), tso=tso, unwind=unwind, desc=desc, wit=wit,
                 extra=EX, timeout=1800, post_unwind=5)
 
